@@ -331,19 +331,19 @@ theorem sec1_slices (a b : Bytes) (ha : a.length = 32) :
     rw [List.drop_append_of_le_length (by omega), List.drop_of_length_le (by omega)]
     simp
 
-/-- `ScalarBaseMult` + `Bytes_Unsafe` + the length test + the two slices, as in `DerivePublic` and the
+/-- `ScalarBaseMult` + `Bytes` (constant-time conversion) + the length test + the two slices, as in `DerivePublic` and the
     tail of `GenerateKey` -/
 theorem publicOf (X : Ctx α β) (F : CurveFacts X) (k : Bytes) (hk : k.length = 32) :
     ∃ P, scalarBaseMult X k = .ok P ∧
       match Spec.SM2.smul (Bytes.toNatBE k) Spec.SM2.G with
       | some (x, y) =>
-        (Point.bytes X.C P false).length = 65 ∧
-        ((Point.bytes X.C P false).drop 1).take 32 = Bytes.ofNatBE 32 x ∧
-        (Point.bytes X.C P false).drop 33 = Bytes.ofNatBE 32 y
-      | none => (Point.bytes X.C P false).length ≠ 65 := by
+        (Point.bytes X.C P true).length = 65 ∧
+        ((Point.bytes X.C P true).drop 1).take 32 = Bytes.ofNatBE 32 x ∧
+        (Point.bytes X.C P true).drop 33 = Bytes.ofNatBE 32 y
+      | none => (Point.bytes X.C P true).length ≠ 65 := by
   obtain ⟨P, hP, hrep⟩ := F.baseMult k hk
   refine ⟨P, hP, ?_⟩
-  have hb := F.bytesUnsafe P _ hrep
+  have hb := F.bytesSafe P _ hrep
   cases hQ : Spec.SM2.smul (Bytes.toNatBE k) Spec.SM2.G with
   | none => rw [hQ] at hb; rw [hb]; simp [Spec.SM2.pointBytes]
   | some q =>
